@@ -17,4 +17,5 @@ for p in "$@"; do
 done
 git -C /repo worktree remove --force "$wt"
 tag=$(python3 -c "import hashlib,sys;print(hashlib.sha256(sys.argv[1].encode()).hexdigest()[:10])" "$wt")
-rm -rf /verif/.build/kani-target-$tag /verif/.build/kx-$tag /verif/.build/replay-target-$tag /verif/.build/replay-$tag 2>/dev/null
+rm -rf /verif/.build/kani-target-$tag /verif/.build/kx-$tag /verif/.build/replay-target-$tag /verif/.build/replay-$tag /verif/.build/kern-$tag /verif/.build/kern-target-$tag /verif/.build/native-target-$tag 2>/dev/null
+# (the per-tag evidence directory .build/evidence-$tag is kept: the seed logs point into it)
